@@ -205,9 +205,9 @@ CHECKS["C04"] = {
     "assert_filter": r"C04\.",
     "runs": [R("./vm", {"fn": r"^ZZ_C04_"}),
              R("./vm", {"fn": r"^ZZ_C01_k_.*Stmt_quick$"}, {"fn": r"^ZZ_C01_k_[A-Za-z]*Stmt$", "wall_timeout": 14000})],
-    "expect_asserts": [r"C04\.S1\.scope-restored/IfStmt", r"C04\.S1\.scope-restored/TryStmt", r"C04\.S2\.block-binding-not-visible-after/.*", r"C04\.S3\.nearest-binding-updated-or-defined-here", r"C04\.S4\.closure-sees-defining-scope", r"C04\.S5\.module-binding-through-name/.*"],
+    "expect_asserts": [r"C04\.S1\.scope-restored/IfStmt", r"C04\.S1\.scope-restored/TryStmt", r"C04\.S2\.block-binding-not-visible-after/.*", r"C04\.S3\.nearest-binding-updated-or-defined-here", r"C04\.S4\.closure-sees-defining-scope", r"C04\.S4\.escaping-closure/sees-its-defining-scope-from-a-later-block/.*", r"C04\.S5\.module-binding-through-name/.*"],
     "bounds": {"S1": "every statement kind with arbitrary child outcomes (the C01 step instances): current scope pointer-identical before and after", "S2": "17 block forms x 3 binding forms x exits (normal, break, continue, return, caught throw); symbolic int64 values",
-               "S3": "chains of depth 1..3, existing binding at any level or absent, optional second outer binding", "S4/S5": "19 closure / invocation / recursion / module programs with symbolic values"},
+               "S3": "chains of depth 1..3, existing binding at any level or absent, optional second outer binding", "escaping closures": "closure made in block I inside block O, called from a later block K and after it: 11 x 11 x 11 block-opening constructs, reading or writing the captured binding, symbolic values", "S4/S5": "19 closure / invocation / recursion / module programs with symbolic values"},
     "stubs": [], "assumptions": ["whether try and catch are one block or two is not asserted (the statement leaves it open)", "the init variable of a C-style loop is not asserted"],
     "outside": ["name pools beyond {x, y}", "programs are parsed from templates: their shapes are enumerated, only the bound values are symbolic"],
 }
